@@ -112,9 +112,11 @@ Proof. exact ex_renorm. Qed.
      (end conditions) for LZ4_compress_HC_continue and the one-shot entry points, to the consumed prefix for
      LZ4_compress_HC_continue_destSize; ret <= capacity; capacity >= LZ4_compressBound => success.
    - C11_hc_mid_continue: one call: invariants kept, write high-water mark <= capacity (limited modes), factorisation.
-   - C11_hc_mid_decodes: one successful call, decoder side, and [hhist_inv] for H ++ consumed bytes afterwards.
+   - C11_hc_mid_decodes: one successful call, decoder side, and [hhist_invd] for H ++ consumed bytes afterwards
+     ([dc]: the attached lz4mid-level dictionary context searched in place, LZ4MID_searchExtDict; its prefix comes first).
    - C11_hc_mid_write_block: ANY placement of the next block keeps the precondition (the HC overlap trimming covers every
-     overlap - this is the statement the seeded change C11_3 breaks); C11_hc_mid_saveDict: LZ4_saveDictHC keeps it. *)
+     overlap - this is the statement the seeded change C11_3 breaks); C11_hc_mid_saveDict: LZ4_saveDictHC keeps it for the
+     stream's OWN bytes; with a dictionary context attached: C12_hc_mid_saveDict_attached (fix F18). *)
 From LZ4V Require Import Model.HcEmit Model.HcMid Model.HcMidStream Proofs.HcMidStreamProofs Proofs.HcMidStreamHist Proofs.HcMidStreamExamples.
 
 Theorem C11_hc_mid_stream :
@@ -126,27 +128,27 @@ Theorem C11_hc_mid_continue :
   forall m c src n cap lim ret consumed out hw c',
   hmem_ok m -> hs_ok c -> k_dirty (hs_core c) = false -> 0 < src -> 0 <= n < 2147483648 -> 0 <= cap ->
   hs_continue_generic m c src n cap lim = Some (HRes ret consumed out hw c') ->
-  exists ke, hs_effective m c src n = Some ke /\ k_ready ke src /\ is_mid (k_level (hs_core c)) = true /\
-             call_post m ke src n cap lim ret consumed out hw c'.
+  exists ke dc, hs_effective m c src n = Some (ke, dc) /\ k_ready ke src /\ dc_ready dc /\ is_mid (k_level (hs_core c)) = true /\
+                call_post m ke dc src n cap lim ret consumed out hw c'.
 Proof. exact hs_continue_generic_sound. Qed.
 Print Assumptions C11_hc_mid_continue.
 
 Theorem C11_hc_mid_decodes :
-  forall m ke src n cap lim ret consumed out hw c' H,
-  k_ready ke src -> call_post m ke src n cap lim ret consumed out hw c' -> hhist_inv m ke H -> 0 < ret ->
+  forall m ke dc src n cap lim ret consumed out hw c' H,
+  k_ready ke src -> dc_ready dc -> call_post m ke dc src n cap lim ret consumed out hw c' -> hhist_invd m ke dc H -> 0 < ret ->
   (forall K, 65535 <= Z.of_nat K -> spec_decode (lastn K H) out = Some (load_list m src (Z.to_nat consumed))) /\
   (lim <> FillOutput ->
    forall K, 65535 <= Z.of_nat K -> strict_valid (lastn K H) out = Some (load_list m src (Z.to_nat consumed))) /\
-  hhist_inv m (hs_core c') (H ++ load_list m src (Z.to_nat consumed)).
+  hhist_invd m (hs_core c') (hs_dctx c') (H ++ load_list m src (Z.to_nat consumed)).
 Proof. exact hs_call_decodes. Qed.
 Print Assumptions C11_hc_mid_decodes.
 
 Theorem C11_hc_mid_write_block :
-  forall m c src bs ke H,
+  forall m c src bs ke dc H,
   pre_inv c -> hs_dctx c = None -> 0 < src ->
-  hs_effective (store_list m src bs) c src (Z.of_nat (length bs)) = Some ke ->
+  hs_effective (store_list m src bs) c src (Z.of_nat (length bs)) = Some (ke, dc) ->
   hhist_inv m (hs_core c) H ->
-  hhist_inv (store_list m src bs) ke H.
+  dc = None /\ hhist_invd (store_list m src bs) ke dc H.
 Proof. exact hs_write_block_hist. Qed.
 Print Assumptions C11_hc_mid_write_block.
 
